@@ -65,6 +65,27 @@ pub fn c09(log: &mut Log, seed: u64, tier: &str) {
             }
         }
     }
+    // "any builder": the bulk entry points (extend_iter / extend_stream / from_iter of raw, map and
+    // set builders), zero values among the others
+    for (i, (name, keys)) in ins.iter().filter(|(_, k)| k.len() <= 200 && !k.is_empty()).take(if thorough(tier) { 120 } else { 40 }).enumerate() {
+        let set = i % 4 == 3;
+        let mut items: Vec<Kv> = if set { keys.iter().map(|k| (k.clone(), 0)).collect() } else { assign(keys.clone(), *pick(&mut r, VAL_MODES), &mut r) };
+        if !set {
+            // a zero every third key
+            for (j, it) in items.iter_mut().enumerate() {
+                if (i + j) % 3 == 1 {
+                    it.1 = 0;
+                }
+            }
+        }
+        let paths: &[&str] = if set { &["extend_iter", "extend_stream_vec", "from_iter", "raw_from_iter", "extend_stream_fst"] }
+                             else { &["extend_iter", "raw_extend_iter", "extend_stream_vec", "raw_extend_stream", "extend_stream_fst", "from_iter", "raw_from_iter"] };
+        let path = paths[i % paths.len()];
+        match guard(|| crate::scen_build::build_via(path, &items, set)) {
+            Ok(bytes) => file_ev(log, &bytes, &items, 0, -1, &format!("{} through {}", name, path)),
+            Err(p) => log.ev(json!({"ev": "Panic", "in": path, "msg": p, "origin": name})),
+        }
+    }
     // "any builder": one that has rejected calls (duplicates, smaller keys, prefixes) in between
     for (i, (name, keys)) in ins.iter().filter(|(_, k)| k.len() <= 200 && k.len() >= 2).take(if thorough(tier) { 90 } else { 30 }).enumerate() {
         let set = i % 3 == 2;
@@ -589,6 +610,28 @@ pub fn c08(log: &mut Log, seed: u64, tier: &str) {
             }
         };
         raw_ev(log, &bytes, "built:sweep", "slice");
+    }
+    // (1a') a wide root of every fan-out 33..256 (the 256-byte index is the one long write of a
+    // build; it starts at every offset modulo the checksum's block sizes), as set and as map
+    for f in 33..=256usize {
+        let mut b = Builder::memory();
+        for x in 0..f {
+            if f % 2 == 0 {
+                b.add(&[x as u8]).unwrap();
+            } else {
+                b.insert(&[x as u8], (x as u64) * 259).unwrap();
+            }
+        }
+        raw_ev(log, &b.into_inner().unwrap(), "built:fanout", "slice");
+        // ... and below a prefix of 0..63 bytes
+        let mut b = Builder::memory();
+        let mut key = vec![b'p'; f % 64];
+        key.push(0);
+        for x in 0..40u8 {
+            *key.last_mut().unwrap() = x;
+            b.add(&key).unwrap();
+        }
+        raw_ev(log, &b.into_inner().unwrap(), "built:fanout-prefix", "slice");
     }
     // (1b) ... independent of how the data was chunked while being written: the same builds through
     // sinks that accept prefixes and interrupt (every byte still reaches the sink exactly once)
